@@ -254,8 +254,10 @@ impl World for Hs {
                             m.pending
                         );
                     } else {
+                        // an offer that would expire with the current ledger (live_until == now) may
+                        // be refused: the statement does not require every offer to be creatable
                         ensure!(
-                            !(*live_until >= now && *live_until <= max),
+                            !(*live_until > now && *live_until <= max),
                             "holder-keeps-control",
                             "holder's valid offer (live_until {} at ledger {}) was refused",
                             live_until,
